@@ -10,7 +10,9 @@ if [ $# -gt 0 ]; then
   timeout 1800 make -j16 "$@"
   exit $?
 fi
-timeout 3000 make -j16
+# keep going: a proof file that does not compile must not stop the models from being extracted
+MAKE_RC=0
+timeout 3000 make -k -j16 || MAKE_RC=$?
 mkdir -p "$ROOT/.cache/extract"
 cd "$ROOT/.cache/extract"
 # re-extract only when the models changed
@@ -22,3 +24,4 @@ if [ ! -x driver ] || [ "$(cat stamp 2>/dev/null)" != "$STAMP" ]; then
   timeout 900 ocamlfind ocamlopt -w -a model.mli model.ml conv.ml $(ls lvl_*.ml) driver.ml -o driver 2> ocaml.log || { cat ocaml.log; exit 1; }
   echo "$STAMP" > stamp
 fi
+exit $MAKE_RC
